@@ -70,6 +70,16 @@ def run(ctx):
         with warnings.catch_warnings():
             warnings.simplefilter('ignore'); d.write(b)
         PC.judge_package(ctx, b.getvalue(), {'explicit picture name': bad}, d.mimetype, cause='explicit-picture-name-is-a-reserved-member-name')
+    # an object attached to a sub-document before that sub-document is attached itself (the finding recorded for C16, seen from C03:
+    # two members of one name, one folder declared twice)
+    from odf.opendocument import OpenDocumentSpreadsheet, OpenDocumentChart
+    root = OpenDocumentText(); mid = OpenDocumentSpreadsheet(); leaf = OpenDocumentChart()
+    mid.addObject(leaf); root.addObject(mid)
+    b = io.BytesIO()
+    import warnings
+    with warnings.catch_warnings():
+        warnings.simplefilter('ignore'); root.write(b)
+    PC.judge_package(ctx, b.getvalue(), {'history': 'mid.addObject(leaf); root.addObject(mid); root.write()'}, root.mimetype, cause='child-attached-before-parent')
 
 def synthetic(rng, i=None):
     c = P.content_xml('<text:p>obj</text:p>'); s = P.styles_xml()
